@@ -11,7 +11,7 @@ pats=("$@"); [ ${#pats[@]} -eq 0 ] && pats=(mutants/*.patch mutants/benign/*.pat
 ok=0; miss=0
 for p in "${pats[@]}"; do
   prop=$(sed -n 's/^# property: //p' "$p" | head -1)
-  if ! git -C /repo apply "$PWD/$p" 2>/dev/null && ! git -C /repo apply "$p" 2>/dev/null; then echo "SKIP   $p (does not apply)"; continue; fi
+  if ! git -C /repo apply "$PWD/$p" 2>/dev/null && ! git -C /repo apply -C1 --recount "$PWD/$p" 2>/dev/null && ! (cd /repo && patch -s -p1 -F3 --no-backup-if-mismatch -r - < "/verif/$p" >/dev/null 2>&1); then git -C /repo checkout -- .; echo "SKIP   $p (does not apply)"; continue; fi
   out=$(./check "$prop" quick 2>&1); rc=$?
   git -C /repo checkout -- .
   case "$p" in
